@@ -103,6 +103,7 @@ func c17Scenario(c c17Case, v *vlib.Verdict) {
 	})
 	defer verifhook.Set(nil)
 	nextID := atomic.Int64{}
+	sendSem := make(chan struct{}, 1)
 	var wg sync.WaitGroup
 	for pi, pr := range c.Procs {
 		wg.Add(1)
@@ -119,8 +120,14 @@ func c17Scenario(c c17Case, v *vlib.Verdict) {
 				mu.Unlock()
 				switch op.Kind {
 				case 0:
+					// Send serialises callers on an internal mutex and holds it while it waits for room. The harness
+					// admits one goroutine at a time through a CHANNEL semaphore instead, so that the others wait in
+					// a way synctest recognises as blocked (a mutex wait would freeze the bubble's clock); the
+					// serialisation itself is the same.
+					sendSem <- struct{}{}
 					ev.Val = int(nextID.Add(1))
 					ev.Err = d.Send(ev.Val)
+					<-sendSem
 				case 1:
 					val, err := d.Recv()
 					ev.Err = err
@@ -273,25 +280,34 @@ func c17Scenario(c c17Case, v *vlib.Verdict) {
 			}
 		}
 	}
-	// a Recv that STARTED after a Send had completed and that reports end-of-stream / timeout while that item
-	// was still in the queue: "data queued before close is still returned before end-of-stream"
+	// "data queued before close is still returned before end-of-stream": let C be the start of the effective Close
+	// (the first Close call that returned nil, or the harness's final Close). Every item whose Send had COMPLETED
+	// before C is in the queue (or already taken) when the queue closes, so no Recv may report end-of-stream while it
+	// is still queued. A taker may have removed the item before that Recv looked and recorded its result later; only
+	// a taker that STARTED after the Recv had already returned proves the item was still queued.
+	effClose := closeSeq
+	for _, e := range events {
+		if e.Kind == 4 && e.Err == nil && e.seqStart < effClose {
+			effClose = e.seqStart
+		}
+	}
 	for _, r := range events {
 		if r.Kind != 1 || r.Err != io.EOF {
 			continue
 		}
 		for id, s := range sent {
-			if s.seqEnd < r.seqStart {
-				// item id was queued before this Recv began; it must have been taken by someone before this EOF was reported
-				taken := false
-				for _, r2 := range events {
-					if r2.Kind == 1 && r2.Err == nil && r2.Val == id && r2.seqEnd < r.seqEnd {
-						taken = true
-					}
+			if s.seqEnd >= effClose {
+				continue
+			}
+			taken := false
+			for _, r2 := range events {
+				if r2.Kind == 1 && r2.Err == nil && r2.Val == id && r2.seqStart < r.seqEnd {
+					taken = true
 				}
-				if !taken {
-					v.Failf("C17:queue:eof-before-queued-item", "a Recv reported end-of-stream although item %d, queued before that Recv started, was still in the queue (it came out later)", id)
-					return
-				}
+			}
+			if !taken {
+				v.Failf("C17:queue:eof-before-queued-item", "a Recv reported end-of-stream although item %d, queued before Close began, was still in the queue (it came out later)", id)
+				return
 			}
 		}
 	}
@@ -305,7 +321,6 @@ func c17Scenario(c c17Case, v *vlib.Verdict) {
 			return
 		}
 	}
-	_ = closeSeq
 	// classification
 	racing := 0
 	for _, pr := range c.Procs {
